@@ -18,7 +18,7 @@ RULE = (
     "inline/image after their container); parent/children/siblings/next/previous are mutually consistent; rendering the same "
     "list twice gives the same HTML and leaves every token equal to a deep copy taken before; a deep copy renders the same. "
     "Non-trivial = stream with >=1 token having children or attrs or meta; distinct by (conf id, source)."
-    " After a restored token was given an attribute, all other and all later restorations still equal their originals; a stream decorated with data-line/class attributes renders identically three times."
+    " After a restored token was given an attribute, all other and all later restorations still equal their originals; a stream decorated with data-line/class attributes renders identically three times. An equal stream renders to the same HTML on a renderer object made at that moment (no dependence on what the instance rendered before); image-description twins (same description source, different children) are rendered in sequence on one instance."
 )
 ASSUMPTIONS = ["token equality = dataclass equality of markdown_it.token.Token", "'with or without children' is read as the children parameter of as_dict"]
 
@@ -27,7 +27,7 @@ def floors(tier):
     q = tier == "quick"
     return {"streams": 60000 if q else 1500000, "roundtrip.children_nonempty": 50000, "roundtrip.children_empty": 1000, "roundtrip.attrs_int": 2000,
             "roundtrip.meta_nonempty": 2000, "roundtrip.hidden": 5000, "roundtrip.image_with_children": 3000, "tree.nodes": 500000, "rendered_twice": 60000,
-            "roundtrip.children_false_with_children": 30000, "roundtrip.restored_then_mutated": 20000, "rendered_decorated": 60000, "tree.inner_walks": 50000, "tree.without_root": 50000}
+            "roundtrip.children_false_with_children": 30000, "roundtrip.restored_then_mutated": 20000, "rendered_decorated": 60000, "tree.inner_walks": 50000, "tree.without_root": 50000, "rendered_on_fresh_renderer": 50000, "twins.rendered": 150}
 
 
 def check_stream(ctx, md, toks, env, count=True):
@@ -40,6 +40,26 @@ def check_stream(ctx, md, toks, env, count=True):
             ctx.count(k, n)
     before = copy.deepcopy(toks)
     html1 = md.renderer.render(toks, md.options, env)
+    # --- what a stream renders to is a function of the tokens, the options and env - not of what this renderer rendered before: a
+    # renderer object made now (only when every render rule is the renderer's own method, i.e. no plug-in rule bound elsewhere) must
+    # give the same HTML for an equal stream
+    fresh = None
+    try:
+        cand = type(md.renderer)()
+        if set(cand.rules) == set(md.renderer.rules) and all(getattr(v, "__self__", None) is md.renderer and getattr(v, "__func__", None) is getattr(cand.rules[k], "__func__", 0)
+                                                              for k, v in md.renderer.rules.items()):
+            fresh = cand
+    except Exception:
+        fresh = None
+    if fresh is not None:
+        try:
+            hf = fresh.render(copy.deepcopy(before), md.options, copy.deepcopy(env))
+        except Exception as e:
+            errs.append(("fresh-renderer-raises", f"{type(e).__name__}: {e}"))
+        else:
+            cnt("rendered_on_fresh_renderer")
+            if hf != html1:
+                errs.append(("render-depends-on-renderer-history", f"the instance's renderer gives {first_str_diff(html1, hf)} (second: a renderer object made now, same tokens, options, env)"))
     # --- serialisation round trips --------------------------------------------------------------------
     for ch in (True, False):
         for up in (True, False):
@@ -297,6 +317,21 @@ def run(ctx):
             k += 1
             if ctx.mine(k):
                 check_case(ctx, {"conf": conf, "src": src})
+
+    # twins: the same image description source whose parsed children differ from one document to the next (a label defined or not,
+    # an entity, a nested image), rendered one after the other on the same instance, in both orders
+    descs = ["a [b] c", "[b]", "x [b][] y", "![in [b]](u) t", "a [B] *e*", "`k` [b]", "[b] &amp; [c]"]
+    for conf in confs[:6]:
+        for di, dsc in enumerate(descs):
+            k += 1
+            if not ctx.mine(k):
+                continue
+            a = f"![{dsc}](/i.png)\n\n[b]: /u\n"
+            b = f"![{dsc}](/i.png)\n\n[c]: /v\n"
+            c = f"para\n\n![{dsc}](/i.png \"t\")\n"
+            for src in ([a, b, c, a] if di % 2 == 0 else [c, b, a, b]):
+                ctx.count("twins.rendered")
+                check_case(ctx, {"conf": conf, "src": src}, minimize=False)
 
     from vf import limits
     for i, (name, src) in enumerate(limits.docs(big=True)):
